@@ -6,32 +6,12 @@
 #[cfg(feature = "alloc")]
 extern crate alloc;
 
-/// Declares a Kani proof harness with the stub set of the active configuration
-/// (DESIGN.md section 2.5 lists every stub and what it assumes).
-#[macro_export]
-macro_rules! proof {
-    ($name:ident, $unwind:literal, $body:block) => {
-        #[cfg(kani)]
-        #[kani::proof]
-        #[kani::unwind($unwind)]
-        #[kani::stub(core::array::from_fn, $crate::stubs::from_fn_stub)]
-        #[cfg_attr(feature = "std", kani::stub(std::sync::Mutex::lock, $crate::stubs::lock_stub))]
-        #[cfg_attr(
-            feature = "std",
-            kani::stub(core::task::Waker::wake_by_ref, $crate::stubs::wake_by_ref_stub)
-        )]
-        #[cfg_attr(
-            feature = "std",
-            kani::stub(alloc::sync::Arc::drop_slow, $crate::stubs::drop_slow_stub)
-        )]
-        pub fn $name() $body
-    };
-}
-
-pub mod kit;
+#[macro_use]
 pub mod stubs;
+pub mod kit;
 
 pub mod unit;
+pub mod wide;
 pub mod fam_fut;
 pub mod fam_stream;
 #[cfg(feature = "alloc")]
